@@ -112,11 +112,19 @@ class Pair:
                     {frozenset(e): c for e, c in zip(g_edges, case['g_ecol'])})
 
 
-def check_pair(pair, acc, do_lcs=True, sample=False, cache=None):
+def check_pair(pair, acc, do_lcs=True, sample=False, cache=None, shared_object=False):
     from vermouth.ismags import ISMAGS as _ISMAGS
     import functools
     # `cache` (a dict shared between calls, as RepairGraph does per molecule) must never change an answer
     ISMAGS = functools.partial(_ISMAGS, cache=cache) if cache is not None else _ISMAGS
+    if shared_object:
+        # ONE matcher object answers all queries of this pair, one after the other
+        _holder = {}
+
+        def ISMAGS(graph, pattern, node_match=None, edge_match=None):   # noqa: F811  pylint: disable=function-redefined
+            if 'obj' not in _holder:
+                _holder['obj'] = _ISMAGS(graph, pattern, node_match=node_match, edge_match=edge_match)
+            return _holder['obj']
     graph, pattern = pair.nx()
     multi_col = len(set(pair.p_col.values()) | set(pair.g_col.values())) > 1
     multi_ecol = len(set(pair.p_ecol.values()) | set(pair.g_ecol.values())) > 1
@@ -203,6 +211,9 @@ def check_pair(pair, acc, do_lcs=True, sample=False, cache=None):
     acc.case(nontrivial=len(autos) > 1 and bool(iset), outcome=(len(iset), len(autos), len(pair.p_nodes)),
              sample=case if sample else None, transitions=4)
     for sig, desc in problems[:1]:
+        if shared_object:
+            sig, desc = sig + '(same-object)', 'one matcher object used for all queries in turn: ' + desc
+            case = dict(case, shared_object=True)
         acc.violation(sig, desc, case)
 
 
@@ -250,6 +261,8 @@ def work(task):
                 gn2 = [v + 10 for v in gn]
                 ge2 = [(a + 10, b + 10) for a, b in ge]
                 check_pair(Pair(range(n), p_edges, gn2, ge2), acc, do_lcs=do_lcs, sample=(acc.states % 9001 == 0))
+                if do_lcs and rl == 'id':
+                    check_pair(Pair(range(n), p_edges, gn2, ge2), acc, do_lcs=True, shared_object=True)
     elif kind == 'coloured':
         (n, p_edges), graphs = payload
         shared_cache = {}      # one symmetry cache for all colourings of this pattern structure and all graphs
@@ -293,6 +306,8 @@ def work(task):
                 perm = dict(zip(gn, reversed(gn)))
                 ge = [(perm[a], perm[b]) for a, b in ge]
             check_pair(Pair(nodes, edges, gn, ge), acc, do_lcs=len(nodes) <= 8, sample=(acc.states % 53 == 0))
+            if len(nodes) <= 8:
+                check_pair(Pair(nodes, edges, gn, ge), acc, do_lcs=True, shared_object=True)
     return acc
 
 
@@ -329,6 +344,34 @@ def structured(tier):
             g.add_edge(hub, base + 2 * leg)
             g.add_edge(base + 2 * leg, base + 2 * leg + 1)
     add('doublespider', g)
+    # spiders (one hub, legs of given lengths) up to 10 nodes, each under several node numberings: the automorphism
+    # analysis refines partitions in rounds whose course depends on the numbering
+    import random
+    leg_sets = [(1, 1, 1), (2, 2), (2, 2, 2), (3, 3), (3, 3, 3), (2, 2, 2, 2), (1, 2, 3), (2, 2, 3), (1, 1, 2, 2), (3, 3, 2), (4, 4), (2, 3, 3)]
+    for legs in leg_sets:
+        if sum(legs) + 1 > (10 if tier != 'quick' or sum(legs) <= 9 else 9):
+            continue
+        g = nx.Graph()
+        node = 1
+        for leg in legs:
+            prev = 0
+            for _ in range(leg):
+                g.add_edge(prev, node)
+                prev = node
+                node += 1
+        base_nodes = sorted(g.nodes)
+        numberings = [dict(zip(base_nodes, base_nodes)), dict(zip(base_nodes, reversed(base_nodes)))]
+        for k in range(6 if tier == 'quick' else 20):
+            rng = random.Random(hash((legs, k)) & 0xffffffff if False else (sum(l * 31 ** i for i, l in enumerate(legs)) * 7919 + k))
+            perm = list(base_nodes)
+            rng.shuffle(perm)
+            numberings.append(dict(zip(base_nodes, perm)))
+        # the numbering quoted for the long-legged spider: hub 5, legs 1-7-0, 2-6-9, 3-4-8
+        if legs == (3, 3, 3):
+            numberings.append({0: 5, 1: 1, 2: 7, 3: 0, 4: 2, 5: 6, 6: 9, 7: 3, 8: 4, 9: 8})
+        for idx, numbering in enumerate(numberings):
+            h = nx.relabel_nodes(g, numbering)
+            fam.append(('spider%s#%d' % ('-'.join(map(str, legs)), idx), sorted(h.nodes), sorted(tuple(sorted(e)) for e in h.edges)))
     max_tree = 7 if tier == 'quick' else 8
     for n in range(2, max_tree + 1):
         for idx, tree in enumerate(nx.nonisomorphic_trees(n)):
@@ -379,5 +422,5 @@ def run(ctx):
 def replay(case):
     common.bind_repo()
     acc = Acc()
-    check_pair(Pair.from_case(case), acc)
+    check_pair(Pair.from_case(case), acc, shared_object=bool(case.get('shared_object')))
     return [(s, d) for s, d, _ in acc.violations]
